@@ -10,7 +10,7 @@ export CARGO_NET_OFFLINE=true
 cd "$WT"
 FEAT='oracle serde verif-hooks'
 for C in "$@"; do
-  for k in 1 2; do
+  for k in 1 2 3; do
     P="$C/mut$k.diff"; D="$C/demo$k.rs"
     [ -f "$P" ] || continue
     git checkout -q -- . ; rm -rf tests
